@@ -136,11 +136,78 @@ fn golden_run(ops: &[Op]) -> (Vec<String>, String, Vec<String>) {
     let mut r = Runner::new("c02g");
     r.run(ops);
     r.to_boundary();
+    // fixed probes of consensus-relevant charges and derivations that generated code rarely reaches:
+    // gas of every helper contract with well-formed input (estimates depend on the charge), closed-override
+    // Bitcoin helpers, the derived sender of a pkscript
+    // the three node-independent helpers also as transactions: their receipts carry the exact gas
+    for (m, p) in golden_probes().into_iter().filter(|(m, _)| *m == "eth_call" || *m == "eth_estimateGas") {
+        let _ = m;
+        let call = &p[0];
+        r.raw_tx(
+            "brc20_call",
+            json!({"from_pkscript": PKSCRIPTS[2], "contract_address": call["to"], "data": call["data"]}),
+            &Blk { hash: HashSel::Fresh, ts: 99 },
+            2500,
+            false,
+        );
+    }
+    r.to_boundary();
+    for (m, p) in golden_probes() {
+        r.send(m, p);
+    }
     let ev: Vec<String> = r.events.iter().map(|e| short_hash(&json!([e.req.method, e.req.params, canon_resp(&e.resp)]))).collect();
     let names: Vec<String> = r.events.iter().map(|e| format!("{} -> {}", e.req.method, observe::short(&canon_resp(&e.resp)))).collect();
     let obs = observe(&mut r.inst, &r.uni);
     let od = sha256::digest(serde_json::to_string(&obs).unwrap());
     (ev, od, names)
+}
+
+fn golden_probes() -> Vec<(&'static str, Value)> {
+    use alloy::primitives::{Bytes, U256};
+    use alloy::sol_types::SolCall;
+    use crate::props::c09::{getLastSatLocationCall, getLockedPkscriptCall, getTxDetailsCall, getTxIdCall, graph_overrides, verifyCall, TxGraph};
+    let hexs = |b: &[u8]| format!("0x{}", hex::encode(b));
+    let helper = |a: u8| format!("0x{}{:02x}", "00".repeat(19), a);
+    let p2tr: Vec<u8> = [vec![0x51, 0x20], alloy::primitives::keccak256(b"golden-key").to_vec()].concat();
+    let lock = getLockedPkscriptCall { pkscript: Bytes::from(p2tr.clone()), lock_block_count: U256::from(6u64) }.abi_encode();
+    // a valid BIP-322 simple signature (p2wpkh, deterministic RFC 6979 nonce): only a successful
+    // verification shows the helper's own charge, a failing one burns all gas
+    let bip = {
+        use bitcoin::consensus::Encodable;
+        let spk = hex::decode("00142b05d564e6a7a33c087f16e0f730d1440123799d").unwrap();
+        let net = match crate::driver::network().as_str() {
+            "mainnet" | "bitcoin" => bitcoin::Network::Bitcoin,
+            "signet" => bitcoin::Network::Signet,
+            "regtest" => bitcoin::Network::Regtest,
+            _ => bitcoin::Network::Testnet,
+        };
+        let address = bitcoin::Address::from_script(bitcoin::Script::from_bytes(&spk), net).expect("p2wpkh address");
+        let key = bitcoin::PrivateKey::from_wif("L3VFeEujGtevx9w18HD1fhRbCH67Az2dpCymeRE1SoPK6XQtaN2k").expect("wif");
+        let witness = bip322::sign_simple(&address, b"Hello World", key).expect("sign");
+        let mut sig = Vec::new();
+        witness.consensus_encode(&mut sig).expect("encode");
+        let _ = p2tr.len();
+        verifyCall { pkscript: Bytes::from(spk), message: Bytes::from(b"Hello World".to_vec()), signature: Bytes::from(sig) }.abi_encode()
+    };
+    let g = TxGraph { txs: vec![(vec![(Some(1), 0)], vec![(2, vec![0x6a]), (1, vec![0x51])]), (vec![(Some(2), 1)], vec![(2, vec![0x00, 0x14])]), (vec![(None, 0)], vec![(1, vec![]), (2, vec![0x51])])] };
+    let ov = graph_overrides(&g);
+    let key = |i: usize| alloy::primitives::keccak256(format!("c09-btctx-{}", i));
+    let hexes: serde_json::Map<String, Value> = ov.iter().map(|(k, v)| (b256_hex(*k), json!(hexs(v)))).collect();
+    let from = addr_hex(pk_addr(2));
+    let calls = json!([
+        {"from": from, "to": helper(0xfd), "data": hexs(&getTxDetailsCall { txid: key(0) }.abi_encode())},
+        {"from": from, "to": helper(0xfc), "data": hexs(&getLastSatLocationCall { txid: key(0), vout: U256::from(1u64), sat: U256::from(0u64) }.abi_encode())},
+        {"from": from, "to": helper(0xfb), "data": hexs(&lock)},
+    ]);
+    let pd = json!({"opReturnTxIds": [b256_hex(key(7)), b256_hex(key(8)), b256_hex(key(9))], "bitcoinTxHexes": hexes});
+    vec![
+        ("eth_estimateGas", json!([{"from": from, "to": helper(0xfb), "data": hexs(&lock)}])),
+        ("eth_call", json!([{"from": from, "to": helper(0xfb), "data": hexs(&lock)}])),
+        ("eth_estimateGas", json!([{"from": from, "to": helper(0xfa), "data": hexs(&getTxIdCall {}.abi_encode())}])),
+        ("eth_call", json!([{"from": from, "to": helper(0xfe), "data": hexs(&bip)}])),
+        ("eth_callMany", json!([calls.clone(), Value::Null, pd.clone()])),
+        ("eth_estimateGasMany", json!([calls, Value::Null, pd])),
+    ]
 }
 
 fn golden_path(network: &str) -> std::path::PathBuf {
@@ -261,5 +328,13 @@ impl Property for C02 {
             return golden_check_one(&g.network, g.idx);
         }
         check(&decode_case::<Case>(case)?)
+    }
+}
+
+pub fn debug_golden() {
+    let hs = golden_histories();
+    let (_, _, names) = golden_run(&hs[0]);
+    for n in names.iter().rev().take(10).rev() {
+        println!("{}", &n[..n.len().min(400)]);
     }
 }
